@@ -1,8 +1,8 @@
 CONSTANTS
-  Species = {1, 2, 3}
+  Species = {1, 2}
   NRules = 2
   ProcessedOnly = FALSE
-  MaxProd = 1
+  MaxProd = 2
 SPECIFICATION MSpec
 INVARIANT Within
 INVARIANT Complete
